@@ -165,7 +165,7 @@ func c12Check(c *mc.Ctx, in *slInst, path []string) {
 
 func C12(c *mc.Ctx) {
 	depth := 5
-	blocks := []string{"create", "over", "del", "empty", "create2", "delcreate", "readadd", "code1", "code2", "balnon", "emptyval", "binkey", "binkey2"}
+	blocks := []string{"create", "over", "del", "empty", "create2", "delcreate", "readadd", "code1", "code2", "balnon", "accB", "emptyval", "binkey", "binkey2"}
 	if !c.Quick() {
 		depth = 7
 		blocks = c12Order
